@@ -74,13 +74,15 @@ def inject(rng, prog, fault):
         p.insert(pos, ("op", "push1", G.climb([("num", 6), "/", ("paren", G.climb([("num", 3), "-", ("num", 3)]))])))
         exp = ("DivisionByZero", None)
     elif fault == "div_zero_label":
-        p.insert(pos, ("op", "push1", G.climb([("num", 6), "/", ("lbl", "start")])))     # start = 0
+        p.insert(pos, ("op", "push1", G.climb([("num", 6), "/", ("lbl", "zero")])))
+        p.insert(0, ("label", "zero"))                                                   # zero = 0
         exp = ("DivisionByZero", None)
     elif fault == "too_large":
         p.insert(pos, ("op", "push1", G.climb([("lbl", "end"), "+", ("num", 250)])))
         exp = ("ExpressionTooLarge", None)
     elif fault == "negative":
-        p.insert(pos, ("op", "push1", G.climb([("lbl", "start"), "-", ("num", 1)])))
+        p.insert(pos, ("op", "push1", G.climb([("lbl", "zero"), "-", ("num", 1)])))
+        p.insert(0, ("label", "zero"))
         exp = ("ExpressionNegative", None)
     elif fault == "dup_local_label":
         p.insert(0, ("defi", "twolabels", [], [("label", "z"), ("op", "pc", None), ("label", "z")]))
